@@ -31,11 +31,19 @@ for e in kf:
     if e.get("status") == "known":
         out.append("| %s | `%s` | %s |" % (e["property"], e["signature"], e["what"].replace("|", "/")))
 out.append("\n### 8.5 Seeded changes and the checks that catch them\n")
-out.append("| change | file / function | needs | caught by (quick tier, native) |")
+out.append("| change | file / function | needs | caught by (quick tier; native stage unless stated) |")
 out.append("|---|---|---|---|")
 for f in sorted(glob.glob(os.path.join(V, "seeded", "*", "meta.json"))):
     m = json.load(open(f))
-    r = (m.get("check_results") or {}).get("quick:native") or {}
+    crs = m.get("check_results") or {}
+    r = crs.get("quick:native") or {}
+    if not r.get("detected"):
+        # missed by the native stage: any other run of the quick tier that caught it (a sanitizer stage)
+        for k, v in crs.items():
+            if k.startswith("quick:") and v.get("detected"):
+                r = dict(v)
+                r["signatures"] = list(v.get("signatures") or []) + ["(stages: %s)" % (k.split(":", 1)[1] or "all")]
+                break
     sigs = r.get("signatures") or []
     det = r.get("detected")
     what = m.get("what_changed", "")
